@@ -5,7 +5,10 @@ rendered to module source by cv.gen.c11_designs) and a list of operations
     ["c", d, top]  compile the history's class object `top` of design d (exec on first use)
     ["f", d, top]  re-exec the source (new class objects) and compile
     ["a", d, top]  compile the same class object that was compiled last once more
-on tops that a fresh interpreter accepts ("valid") or rejects ("invalid", = try_compile).
+on tops that a fresh interpreter accepts ("valid") or rejects ("invalid", = try_compile).  An op may carry
+compile OPTIONS as 4th element ({"reserved": [...]} = additional_reserved_names, {"api": "string"|"library"|"dir"}
+= VhdlCompiler.to_string / to_vhdl_library / to_dir); its golden is the fresh-interpreter result of the same
+(design, options).
 
 Oracle = golden(design, top): the result of a FRESH interpreter (subprocess, PYTHONHASHSEED=0)
 that executes nothing but this one compilation.  For every compile of the history:
@@ -52,10 +55,11 @@ TECHNIQUE = ("Hypothesis-generated compilation histories over pools of valid and
              "plus complete enumeration of ordered pairs IxV, VxV and of hash seeds; differential oracle against a "
              "fresh-interpreter golden per design")
 RULE = (
-    "case = history of compile / compile-fresh-copy / compile-same-object-again operations over 1-6 designs drawn "
+    "case = history of compile / compile-fresh-copy / compile-same-object-again operations (optionally with the "
+    "compile options additional_reserved_names / to_vhdl_library / to_dir) over 1-6 designs drawn "
     "from pools of parametrised valid designs and of invalid designs that are rejected at different compiler "
     "stages, all executed in one interpreter; every result is compared with the result of a fresh interpreter "
-    "compiling only that design. Non-trivial = a design accepted by the fresh interpreter is compiled after >= 1 "
+    "compiling only that design with the same options. Non-trivial = a design accepted by the fresh interpreter is compiled after >= 1 "
     "compile that was rejected, or after a compile of a different design (>= 2 designs interleaved); hash-seed cases "
     "(one design, fresh interpreters under >= 2 PYTHONHASHSEED values) are non-trivial when the design compiled "
     "under every seed. distinct = case hash"
@@ -110,6 +114,9 @@ def plan(tier):
     for i in range(n_hs):
         shards.append({"kind": "enum", "name": f"hashseed{i}", "space": "hashseed", "part": i, "parts": n_hs,
                        "tier": tier})
+    n_opt = 4 if quick else 8
+    for i in range(n_opt):
+        shards.append({"kind": "enum", "name": f"opt{i}", "space": "opt", "part": i, "parts": n_opt, "tier": tier})
     only = os.environ.get("C11_ONLY")  # debugging aid: regular expression selecting shards by name
     if only:
         shards = [s for s in shards if re.search(only, s["name"])]
@@ -165,6 +172,20 @@ def _enumerate_space(shard):
                         yield {"designs": [_dspec(n, v)], "ops": [["c", 0, t], ["c", 0, vt]]}
                 else:
                     yield {"designs": [_dspec(n, v), _dspec(vn, vv)], "ops": [["c", 0, t], ["c", 1, vt]]}
+    elif space == "opt":
+        # compile OPTIONS of the public entry points: a compile with additional_reserved_names / through another
+        # entry point must not influence later compiles (and must itself equal the golden of (design, options))
+        for (vn, vv, vt) in _instances(V_TARGETS, tier, first_only=(tier == "quick"))[part::parts]:
+            names = D.object_names(vn, D.variants(vn)[vv])
+            res = {"reserved": names}
+            other = "comb_logic" if vn != "comb_logic" else "seq_counter"
+            vd, od = _dspec(vn, vv), _dspec(other, 0)
+            yield {"designs": [vd], "ops": [["c", 0, vt, res], ["c", 0, vt]]}
+            yield {"designs": [vd], "ops": [["c", 0, vt, res], ["f", 0, vt]]}
+            yield {"designs": [od, vd], "ops": [["c", 0, "Top", res], ["c", 1, vt]]}
+            yield {"designs": [vd], "ops": [["c", 0, vt], ["c", 0, vt, res], ["c", 0, vt, {"api": "library"}]]}
+            yield {"designs": [vd], "ops": [["c", 0, vt, {"api": "dir", "reserved": names[:3]}], ["c", 0, vt],
+                                            ["c", 0, vt, {"api": "dir"}]]}
     elif space == "hashseed":
         seeds = SEEDS_QUICK if tier == "quick" else SEEDS_THOROUGH
         for (n, v, t) in _instances(V_TARGETS, tier, first_only=(tier == "quick"))[part::parts]:
@@ -202,9 +223,23 @@ def _pool(shard):
     return uniq(vs), uniq(is_)
 
 
+def _option_sets(vs):
+    """Three fixed option dicts per shard (bounds the number of (design, options) goldens)."""
+    names = []
+    for d in vs:
+        for n in D.object_names(d["d"], d["p"]):
+            if n not in names:
+                names.append(n)
+    few = []
+    for d in vs[:4]:
+        few += [n for n in D.object_names(d["d"], d["p"])[:6] if n not in few]
+    return [{"reserved": names}, {"reserved": few, "api": "library"}, {"reserved": names[::2], "api": "dir"}]
+
+
 def strategy(shard):
     vs, is_ = _pool(shard)
     maxlen = int(shard.get("maxlen", 10))
+    optsets = _option_sets(vs)
 
     @st.composite
     def case(draw):
@@ -217,13 +252,15 @@ def strategy(shard):
                 targets.append((k, top, stg == "valid"))
         valid_t = [t for t in targets if t[2]]
         invalid_t = [t for t in targets if not t[2]]
-        op_v = st.tuples(st.sampled_from(["c", "c", "f", "a"]), st.sampled_from(valid_t))
-        ops_s = [op_v, op_v]
+        none = st.just(None)
+        op_v = st.tuples(st.sampled_from(["c", "c", "f", "a"]), st.sampled_from(valid_t), none)
+        op_o = st.tuples(st.sampled_from(["c", "c", "f", "a"]), st.sampled_from(valid_t), st.sampled_from(optsets))
+        ops_s = [op_v, op_v, op_v, op_o]
         if invalid_t:
-            op_i = st.tuples(st.sampled_from(["c", "c", "c", "f", "a"]), st.sampled_from(invalid_t))
-            ops_s.append(op_i)
+            op_i = st.tuples(st.sampled_from(["c", "c", "c", "f", "a"]), st.sampled_from(invalid_t), none)
+            ops_s += [op_i, op_i]
         ops = draw(st.lists(st.one_of(*ops_s), min_size=2, max_size=maxlen))
-        return {"designs": designs, "ops": [[o, t[0], t[1]] for o, t in ops]}
+        return {"designs": designs, "ops": [[o, t[0], t[1]] + ([opt] if opt else []) for o, t, opt in ops]}
 
     return case()
 
@@ -259,7 +296,7 @@ def _golden_path(key):
 
 
 def _goldens(keys, threads=4):
-    """keys: iterable of (source, top, seed); fills the per-process cache.  A golden is the result of a
+    """keys: iterable of (source, top, seed, optkey); fills the per-process cache.  A golden is the result of a
     fresh interpreter that performs only this compilation."""
     todo = []
     for k in dict.fromkeys(keys):
@@ -273,8 +310,12 @@ def _goldens(keys, threads=4):
             todo.append(k)
     if not todo:
         return
+    def one(k):
+        op = ["c", 0, k[1]] + ([json.loads(k[3])] if len(k) > 3 and k[3] else [])
+        return _run_child([k[0]], [op], k[2])[0]
+
     with ThreadPoolExecutor(min(threads, len(todo))) as ex:
-        for k, res in zip(todo, ex.map(lambda k: _run_child([k[0]], [["c", 0, k[1]]], k[2])[0], todo)):
+        for k, res in zip(todo, ex.map(one, todo)):
             _GOLDEN[k] = res
             p = _golden_path(k)
             if p:
@@ -284,16 +325,21 @@ def _goldens(keys, threads=4):
                 os.replace(tmp, p)
 
 
-def _golden(source, top, seed=0):
-    _goldens([(source, top, seed)])
-    return _GOLDEN[(source, top, seed)]
+def _optkey(op):
+    """canonical text of the compile options of an op ("" = default compile)"""
+    return canon(op[3]) if len(op) > 3 and op[3] else ""
+
+
+def _golden(source, top, seed=0, optkey=""):
+    _goldens([(source, top, seed, optkey)])
+    return _GOLDEN[(source, top, seed, optkey)]
 
 
 def _fresh_history(sources, ops):
     used = sorted({o[1] for o in ops})
     remap = {d: i for i, d in _enumerate(used)}
     srcs = [sources[d] for d in used]
-    ops2 = [[o[0], remap[o[1]], o[2]] for o in ops]
+    ops2 = [[o[0], remap[o[1]], o[2]] + list(o[3:]) for o in ops]
     key = canon([srcs, ops2])
     if key not in _SUBHIST:
         _SUBHIST[key] = _run_child(srcs, ops2)
@@ -356,13 +402,14 @@ def _cause(case, sources, k, verdict, results, out):
     ops = case["ops"]
     victim = ops[k]
     vkey = (victim[1], victim[2])
-    vgold = _golden(sources[victim[1]], victim[2])
+    vgold = _golden(sources[victim[1]], victim[2], 0, _optkey(victim))
 
     def kind(o):
+        opt = "/options" if _optkey(o) else ""  # compiles with options are a kind of their own
         if (o[1], o[2]) == vkey:
-            return "same-design"
+            return "same-design" + opt
         stg = D.stage(case["designs"][o[1]]["d"], o[2])
-        return "valid" if stg == "valid" else f"reject:{stg}"
+        return ("valid" if stg == "valid" else f"reject:{stg}") + opt
 
     def reproduces(prefix):
         res = _fresh_history(sources, list(prefix) + [victim])
@@ -370,11 +417,14 @@ def _cause(case, sources, k, verdict, results, out):
         return _verdict(vgold, res[-1]) == verdict
 
     def describe(prefix):
-        kinds = {kind(o) for o in prefix}
+        full = {kind(o) for o in prefix}
+        kinds = {x.split("/")[0] for x in full}
         rej = sorted(x for x in kinds if x.startswith("reject:"))
         acc = [x for x in ("same-design", "valid") if x in kinds]
         if victim[0] == "a" and "same-design" not in acc:
             acc.insert(0, "same-design")  # op "a" compiles the victim's class object twice
+        if any(x.endswith("/options") for x in full):
+            acc.append("options")  # a preceding compile with non-default options is needed
         return "+".join(rej) if rej else "no-reject", "+".join(acc)
 
     prefix = [list(o) for o in ops[:k]]
@@ -394,13 +444,14 @@ def _cause(case, sources, k, verdict, results, out):
     # shortcut: one single preceding compile; those that dirtied monitored state first, most recent first
     distinct = []
     for o in prefix:
-        if (o[1], o[2]) not in [(d[1], d[2]) for d in distinct]:
+        if (o[1], o[2], _optkey(o)) not in [(d[1], d[2], _optkey(d)) for d in distinct]:
             distinct.append(o)
     dirtied = {(o[1], o[2]) for j, o in _enumerate(prefix) if results[j].get("dirtied")}
     recent_first = distinct[::-1]
-    cands = [o for o in recent_first if (o[1], o[2]) in dirtied] + [o for o in recent_first if (o[1], o[2]) not in dirtied]
+    first_choice = [o for o in recent_first if (o[1], o[2]) in dirtied or _optkey(o)]
+    cands = first_choice + [o for o in recent_first if o not in first_choice]
     for o in cands[:3]:
-        single = ["c" if (o[1], o[2]) != vkey else o[0], o[1], o[2]]
+        single = ["c" if (o[1], o[2]) != vkey else o[0], o[1], o[2]] + list(o[3:])
         if reproduces([single]):
             return (*describe([single]), True)
     if not reproduces(prefix):
@@ -408,7 +459,8 @@ def _cause(case, sources, k, verdict, results, out):
     # remove whole kinds: other valid designs first, then rejects that did not dirty anything, then the rest
     cur = prefix
     dirty_kinds = {kind(o) for j, o in _enumerate(prefix) if results[j].get("dirtied")}
-    order = sorted(kinds_in_order, key=lambda kd: (kd != "valid", kd in dirty_kinds, kd == "same-design"))
+    order = sorted(kinds_in_order, key=lambda kd: (kd != "valid", kd in dirty_kinds, kd.endswith("/options"),
+                                                   kd.startswith("same-design")))
     for kd in order:
         trial = [o for o in cur if kind(o) != kd]
         if len(trial) == len(cur):
@@ -432,7 +484,7 @@ def check(case):
     ops = case["ops"]
     # goldens of the tops the pool declares valid; a top declared invalid only needs one when the
     # history accepted it (a fresh interpreter costs ~0.5 s)
-    _goldens([(sources[o[1]], o[2], 0) for o in ops if D.stage(case["designs"][o[1]]["d"], o[2]) == "valid"])
+    _goldens([(sources[o[1]], o[2], 0, _optkey(o)) for o in ops if D.stage(case["designs"][o[1]]["d"], o[2]) == "valid"])
     for n in X.sanitize():
         out.labels.append(f"sanitized_at_case_start:{n}")
     results = X.run_history(sources, ops, monitor=True)
@@ -441,6 +493,7 @@ def check(case):
         last = ops[-1]
         out.exhaustive_cell = f"{case['space']}:{case['designs'][last[1]]['d']}.{last[2]}"
     seen_reject = False
+    seen_options = False
     seen_targets = set()
     reported = set()
     for k, (o, res) in _enumerate(list(zip(ops, results))):
@@ -449,10 +502,16 @@ def check(case):
         if stg != "valid" and not res["ok"]:
             gold = {"ok": False, "exc": res.get("exc"), "msg": res.get("msg"), "assumed": True}
         else:
-            gold = _golden(sources[o[1]], o[2])
+            gold = _golden(sources[o[1]], o[2], 0, _optkey(o))
         tkey = (o[1], o[2])
         out.counters["compiles"] = out.counters.get("compiles", 0) + 1
         out.labels.append(f"op:{o[0]}:{'valid' if gold['ok'] else 'invalid'}")
+        if _optkey(o):
+            out.labels.append("op_with_options:" + "+".join(sorted(o[3])))
+            if seen_targets:
+                out.labels.append("options_after_other_compile")
+        elif seen_options:
+            out.labels.append("default_compile_after_options")
         if gold["ok"] != (stg == "valid"):
             out.labels.append("pool_expectation_differs_from_fresh_interpreter")
         for item in res.get("dirtied", []):
@@ -484,6 +543,8 @@ def check(case):
                 out.add(sig, det)
         if not res["ok"]:
             seen_reject = True
+        if _optkey(o):
+            seen_options = True
         seen_targets.add(tkey)
     if results and any(r.get("dirty") for r in results[-1:]):
         out.labels.append("case_ends_with_dirty_state")
@@ -493,6 +554,7 @@ def check(case):
 def _detail(case, k, gold, res, v, after, confirmed):
     ops = case["ops"]
     lines = [f"history (op, design, top): " + " ; ".join(f"{o[0]} {case['designs'][o[1]]['d']}{case['designs'][o[1]]['p']}.{o[2]}"
+                                                        + (f" options={o[3]}" if len(o) > 3 and o[3] else "")
                                                         for o in ops[:k + 1])]
     lines.append(f"op #{k} on a design that a fresh interpreter {'accepts' if gold['ok'] else 'rejects'}: {v[0]} [{v[1]}]")
     if v[0] == "later_compile_fails":
@@ -512,15 +574,15 @@ def _check_hashseed(case, sources, out):
     o = case["ops"][0]
     src, top = sources[o[1]], o[2]
     seeds = list(case["hashseeds"])
-    _goldens([(src, top, s) for s in seeds])
-    base = _GOLDEN[(src, top, seeds[0])]
+    _goldens([(src, top, s, "") for s in seeds])
+    base = _GOLDEN[(src, top, seeds[0], "")]
     out.counters["fresh_interpreters"] = len(seeds)
     if not base["ok"]:
         out.status = "rejected"
         return out
     all_ok = True
     for s in seeds[1:]:
-        r = _GOLDEN[(src, top, s)]
+        r = _GOLDEN[(src, top, s, "")]
         out.labels.append("hashseed_compile")
         v = _verdict(base, r)
         if not r["ok"]:
@@ -536,7 +598,7 @@ def _check_hashseed(case, sources, out):
 def view(case):
     v = {
         "designs": [f"{d['d']} {d['p']}" for d in case["designs"]],
-        "ops": [f"{o[0]} #{o[1]}.{o[2]}" for o in case["ops"]],
+        "ops": [f"{o[0]} #{o[1]}.{o[2]}" + (f" options={o[3]}" if len(o) > 3 and o[3] else "") for o in case["ops"]],
     }
     if "hashseeds" in case:
         v["hashseeds"] = case["hashseeds"]
@@ -561,6 +623,6 @@ def selfcheck():
     pid = os.getpid()
     atexit.register(lambda: os.getpid() == pid and shutil.rmtree(d, ignore_errors=True))
     tier = "thorough" if ("thorough" in sys.argv or os.environ.get("VERIF_TIER") == "thorough") else "quick"
-    _goldens([(D.render(n, D.variants(n)[vi]), top, 0) for (n, vi, top) in _instances(V_TARGETS, tier)], threads=16)
+    _goldens([(D.render(n, D.variants(n)[vi]), top, 0, "") for (n, vi, top) in _instances(V_TARGETS, tier)], threads=16)
     bad = [k[1] for k, r in _GOLDEN.items() if not r["ok"]]
     # a valid pool design that a fresh interpreter rejects is not a C11 violation; it is only labelled
